@@ -19,6 +19,7 @@ import (
 	"verifharness/drive"
 	"verifharness/gen"
 	"verifharness/spec"
+	"verifharness/stats"
 )
 
 // C10 — a build depends only on its batch, not on earlier or concurrent builds.
@@ -406,4 +407,32 @@ func TestC10Concurrent(t *testing.T) { c10conc.Rapid(t) }
 func init() {
 	c10.register()
 	c10conc.register()
+}
+
+// Deterministic history: a batch whose segment exceeds 16 MiB (300 documents with a 64 KiB
+// incompressible stored value each), then small batches on the same pooled builder.
+func TestC10Fixed(t *testing.T) {
+	col := stats.New("C10", "history")
+	defer col.Write()
+	big := &spec.BatchSpec{}
+	x := uint32(12345)
+	for d := 0; d < 300; d++ {
+		v := make([]byte, 64<<10)
+		for i := range v {
+			x = x*1664525 + 1013904223
+			v[i] = byte(x >> 24)
+		}
+		big.Docs = append(big.Docs, spec.DocSpec{ID: spec.B(fmt.Sprintf("big%03d", d)), Fields: []spec.FieldSpec{{Name: "blob", Type: 't', Stored: true, Value: v, Len: 1,
+			Tokens: []spec.TokenSpec{{Term: spec.B(fmt.Sprintf("t%d", d%7)), Freq: 1}}}}})
+	}
+	small := func(id string) *spec.BatchSpec {
+		return &spec.BatchSpec{Docs: []spec.DocSpec{{ID: spec.B(id), Fields: []spec.FieldSpec{{Name: "f", Type: 't', Stored: true, DV: true, Value: []byte("v" + id), Len: 2,
+			Tokens: []spec.TokenSpec{{Term: "a", Freq: 1, Locs: []spec.LocSpec{{Pos: 1, Start: 0, End: 1}}}, {Term: spec.B(id), Freq: 1}}}}},
+			{ID: spec.B(id + "b"), Fields: []spec.FieldSpec{{Name: "f", Type: 't', Len: 1, Tokens: []spec.TokenSpec{{Term: "a", Freq: 1}}}}}}}
+	}
+	c := historyCase{Steps: []buildStep{{Batch: small("s0")}, {Batch: big}, {Batch: small("s1")}, {Batch: &spec.BatchSpec{}}, {Batch: small("s2")}}}
+	col.CaseHash(stats.HashJSON("fixed-huge-then-small"), true, []string{"segment>16MiB-then-small"}, func() any {
+		return "builds: small, 300 documents x 64 KiB stored value (image > 16 MiB), small, empty, small"
+	})
+	reportBig(t, col, "C10", "history", c, safeRun(c10, c))
 }
